@@ -24,9 +24,10 @@
 #include <algorithm>
 #include <cfloat>
 #include <climits>
+#include <memory>
 #include <numeric>
 
-namespace EIO = Opm::EclIO;
+namespace EclIO = Opm::EclIO;
 using vh::Rng;
 
 static const char* KEY_IX_TRUNC = "formatted-ix-doub-3digit-exponent-truncated";
@@ -54,17 +55,17 @@ struct Case {
     }
 };
 
-static EIO::eclArrType libType(eref::Type t) {
+static EclIO::eclArrType libType(eref::Type t) {
     switch (t) {
-    case eref::INTE: return EIO::INTE; case eref::REAL: return EIO::REAL; case eref::DOUB: return EIO::DOUB; case eref::LOGI: return EIO::LOGI;
-    case eref::CHAR: return EIO::CHAR; case eref::C0NN: return EIO::C0NN; case eref::MESS: return EIO::MESS;
+    case eref::INTE: return EclIO::INTE; case eref::REAL: return EclIO::REAL; case eref::DOUB: return EclIO::DOUB; case eref::LOGI: return EclIO::LOGI;
+    case eref::CHAR: return EclIO::CHAR; case eref::C0NN: return EclIO::C0NN; case eref::MESS: return EclIO::MESS;
     }
-    return EIO::MESS;
+    return EclIO::MESS;
 }
-static const char* libTypeName(EIO::eclArrType t) {
+static const char* libTypeName(EclIO::eclArrType t) {
     switch (t) {
-    case EIO::INTE: return "INTE"; case EIO::REAL: return "REAL"; case EIO::DOUB: return "DOUB"; case EIO::LOGI: return "LOGI";
-    case EIO::CHAR: return "CHAR"; case EIO::C0NN: return "C0NN"; case EIO::MESS: return "MESS";
+    case EclIO::INTE: return "INTE"; case EclIO::REAL: return "REAL"; case EclIO::DOUB: return "DOUB"; case EclIO::LOGI: return "LOGI";
+    case EclIO::CHAR: return "CHAR"; case EclIO::C0NN: return "C0NN"; case EclIO::MESS: return "MESS";
     }
     return "?";
 }
@@ -202,7 +203,7 @@ static ArrSpec genArray(Rng& r, eref::Type t, long len, bool fmt, const std::str
 // the library under test
 // ---------------------------------------------------------------------------------------------
 static void libWrite(const std::string& path, const Case& cs) {
-    EIO::EclOutput out(path, cs.fmt);
+    EclIO::EclOutput out(path, cs.fmt);
     if (cs.ix) out.set_ix();
     for (const auto& s : cs.arrs) {
         const auto& a = s.a;
@@ -214,7 +215,7 @@ static void libWrite(const std::string& path, const Case& cs) {
         case eref::CHAR: case eref::C0NN:
             if (s.api == API_STR_AUTO) out.write(a.name, a.sv);
             else if (s.api == API_STR_WIDTH) out.write(a.name, a.sv, s.api_width);
-            else { std::vector<EIO::PaddedOutputString<8>> p; p.reserve(a.sv.size()); for (const auto& x : a.sv) p.emplace_back(x); out.write(a.name, p); }
+            else { std::vector<EclIO::PaddedOutputString<8>> p; p.reserve(a.sv.size()); for (const auto& x : a.sv) p.emplace_back(x); out.write(a.name, p); }
             break;
         case eref::MESS: out.message(a.name); break;
         }
@@ -222,8 +223,8 @@ static void libWrite(const std::string& path, const Case& cs) {
 }
 
 // EclFile keeps its index protected; the property is about that index, so expose it read-only.
-struct IndexedEclFile : public EIO::EclFile {
-    using EIO::EclFile::EclFile;
+struct IndexedEclFile : public EclIO::EclFile {
+    using EclIO::EclFile::EclFile;
     const std::vector<std::uint64_t>& dataOffsets() const { return ifStreamPos; }
 };
 
@@ -322,17 +323,17 @@ static std::string lenClass(eref::Type t, long n) {
 }
 
 // read the library's copy of array i out of an EclFile into an eref::Array
-static eref::Array libGet(IndexedEclFile& f, int i, const EIO::EclFile::EclEntry& e, int elemSize) {
+static eref::Array libGet(IndexedEclFile& f, int i, const EclIO::EclFile::EclEntry& e, int elemSize) {
     eref::Array a;
     a.name = std::get<0>(e);
     switch (std::get<1>(e)) {
-    case EIO::INTE: { a.type = eref::INTE; const auto& v = f.get<int>(i); a.iv.assign(v.begin(), v.end()); break; }
-    case EIO::REAL: { a.type = eref::REAL; a.rv = f.get<float>(i); break; }
-    case EIO::DOUB: { a.type = eref::DOUB; a.dv = f.get<double>(i); break; }
-    case EIO::LOGI: { a.type = eref::LOGI; const auto& v = f.get<bool>(i); a.lv.resize(v.size()); for (size_t k = 0; k < v.size(); ++k) a.lv[k] = v[k]; break; }
-    case EIO::CHAR: { a.type = eref::CHAR; a.sv = f.get<std::string>(i); break; }
-    case EIO::C0NN: { a.type = eref::C0NN; a.width = elemSize; a.sv = f.get<std::string>(i); break; }
-    case EIO::MESS: a.type = eref::MESS; break;
+    case EclIO::INTE: { a.type = eref::INTE; const auto& v = f.get<int>(i); a.iv.assign(v.begin(), v.end()); break; }
+    case EclIO::REAL: { a.type = eref::REAL; a.rv = f.get<float>(i); break; }
+    case EclIO::DOUB: { a.type = eref::DOUB; a.dv = f.get<double>(i); break; }
+    case EclIO::LOGI: { a.type = eref::LOGI; const auto& v = f.get<bool>(i); a.lv.resize(v.size()); for (size_t k = 0; k < v.size(); ++k) a.lv[k] = v[k]; break; }
+    case EclIO::CHAR: { a.type = eref::CHAR; a.sv = f.get<std::string>(i); break; }
+    case EclIO::C0NN: { a.type = eref::C0NN; a.width = elemSize; a.sv = f.get<std::string>(i); break; }
+    case EclIO::MESS: a.type = eref::MESS; break;
     }
     return a;
 }
@@ -347,6 +348,7 @@ struct Checker {
     // (c) EclFile on `path`, whose reference index is `idx`
     void libRead(const std::string& path, const std::vector<eref::Entry>& idx, uint64_t fileSize, const char* who, Rng& rng) {
         const std::string W = who;
+        const bool isRefFile = W != "lib-read";
         bool poison = false;      // arrays the reader is known not to get through: whole-file loading is then skipped
         for (const auto& s : cs.arrs) if (s.a.type == eref::DOUB) for (double v : s.a.dv) if (denormalTextClass(cs, v)) poison = true;
         int mode = (int)rng.below(4);
@@ -355,7 +357,7 @@ struct Checker {
         rep.cover("reader_mode", MODE[mode]);
         std::unique_ptr<IndexedEclFile> fp;
         try {
-            fp.reset(new IndexedEclFile(path, EIO::EclFile::Formatted{cs.fmt}, mode == 1));
+            fp.reset(new IndexedEclFile(path, EclIO::EclFile::Formatted{cs.fmt}, mode == 1));
             if (mode == 2) fp->loadData();
             if (mode == 3) for (const auto& s : cs.arrs) fp->loadData(s.a.name);
         } catch (const std::exception& e) {
@@ -384,7 +386,10 @@ struct Checker {
                 viol("index-offset:" + std::string(cs.fmt ? "fmt" : "unf") + ":" + tn, "EclFile data position of array " + std::to_string(i) + " is " + std::to_string(i < off.size() ? off[i] : 0) +
                      ", the data start at " + std::to_string(idx[i].data_off) + " (" + eref::describe(want, 0) + ")");
         }
-        if (!off.empty() && off.back() != fileSize) viol("index-end:" + std::string(cs.fmt ? "fmt" : "unf"), "EclFile end position " + std::to_string(off.back()) + ", file size " + std::to_string(fileSize));
+        // The extra last entry of the index (end of file) is not compared: on the unchanged tree it is always
+        // (uint64)-1 because tellg() is called on a stream in fail state; nothing seeks with it (only
+        // seekPosition(index >= size) would return it, and the restart writer treats -1 as "append").
+        if (!off.empty() && off.back() != fileSize) rep.count("observed_index_end_entry_not_file_size");
         // values
         for (int i : order) {
             const auto& want = cs.arrs[i].a;
@@ -394,14 +399,15 @@ struct Checker {
                 got = libGet(f, i, list[i], es[i]);
             } catch (const std::exception& e) {
                 bool den = false;
-                if (want.type == eref::DOUB) for (double v : want.dv) if (denormalTextClass(cs, v) && !ixTruncClass(cs, v)) den = true;
+                // (in the library's own file a value of the truncation class has lost its last exponent digit and is readable)
+                if (want.type == eref::DOUB) for (double v : want.dv) if (denormalTextClass(cs, v) && (isRefFile || !ixTruncClass(cs, v))) den = true;
                 viol(den ? std::string(KEY_DENORMAL) : W + "-threw:" + cs.tag() + ":" + tn,
                      "EclFile::get threw for array " + std::to_string(i) + " " + eref::describe(want, 4) + ": " + std::string(e.what()).substr(0, 200));
                 continue;
             }
             rep.count("comparisons_libread_arrays"); rep.count("comparisons_libread_elements", (long)want.count());
             Cmp c = compareArray(cs, want, got, rep, "libread");
-            if (!c.ok) viol(valueKey(cs, want, c.firstBad, W + "-value"), "EclFile returns array " + std::to_string(i) + " " + eref::describe(want, 0) + " differently: " + c.why);
+            if (!c.ok) viol(isRefFile ? W + "-value:" + cs.tag() + ":" + tn : valueKey(cs, want, c.firstBad, W + "-value"), "EclFile returns array " + std::to_string(i) + " " + eref::describe(want, 0) + " differently: " + c.why);
         }
     }
 };
@@ -453,24 +459,26 @@ int main(int argc, char** argv) {
         // ---- build the case --------------------------------------------------------------------
         Case cs;
         std::string kind;
-        if (idx < en.total) {
-            size_t c = 0; while (c + 1 < en.start.size() && en.start[c + 1] <= idx) ++c;
-            const eref::Type t = DATA_TYPES[c / 4];
-            cs.fmt = (c % 4) & 1; cs.ix = ((c % 4) >> 1) & 1;
-            const long n = en.lens[c][idx - en.start[c]];
-            if (rng.chance(0.3)) { ArrSpec m; m.a.name = "MSG"; m.a.type = eref::MESS; m.api = API_MESSAGE; cs.arrs.push_back(m); }
-            cs.arrs.push_back(genArray(rng, t, n, cs.fmt, "DATA", cs.fmt ? 77 : 99));
-            ArrSpec tail; tail.a.name = "TAIL"; tail.a.type = eref::INTE; tail.a.iv = {42}; cs.arrs.push_back(tail);
-            kind = "enumerated";
-            rep.cover(std::string("enumerated_lengths_") + eref::type_name(t), cs.tag());
-        } else if (idx < en.total + nWide) {
-            const long j = idx - en.total;
+        if (idx < nWide) {
+            // first, because each of these kills the worker on the unchanged tree and a killed worker loses its counters
+            const long j = idx;
             static const int W[3] = {78, 80, 99};
             cs.fmt = true; cs.ix = j & 1;
             ArrSpec s; s.a.name = "WIDE"; s.a.type = eref::C0NN; s.a.width = W[j % 3]; s.api = API_STR_WIDTH; s.api_width = W[j % 3];
             s.a.sv = {"first", std::string((size_t)W[j % 3], 'x'), ""};
             cs.arrs.push_back(s);
             kind = "wide-c0nn";
+        } else if (idx - nWide < en.total) {
+            const long e = idx - nWide;
+            size_t c = 0; while (c + 1 < en.start.size() && en.start[c + 1] <= e) ++c;
+            const eref::Type t = DATA_TYPES[c / 4];
+            cs.fmt = (c % 4) & 1; cs.ix = ((c % 4) >> 1) & 1;
+            const long n = en.lens[c][e - en.start[c]];
+            if (rng.chance(0.3)) { ArrSpec m; m.a.name = "MSG"; m.a.type = eref::MESS; m.api = API_MESSAGE; cs.arrs.push_back(m); }
+            cs.arrs.push_back(genArray(rng, t, n, cs.fmt, "DATA", cs.fmt ? 77 : 99));
+            ArrSpec tail; tail.a.name = "TAIL"; tail.a.type = eref::INTE; tail.a.iv = {42}; cs.arrs.push_back(tail);
+            kind = "enumerated";
+            rep.cover(std::string("enumerated_lengths_") + eref::type_name(t), cs.tag());
         } else {
             cs.fmt = rng.chance(0.5); cs.ix = rng.chance(0.5);
             const int na = 1 + (int)rng.below(8);
@@ -508,7 +516,7 @@ int main(int argc, char** argv) {
         refStart.push_back(refBytes.size());
         uint64_t h = vh::fnv(refBytes, vh::fnv(cs.tag()));
         rep.case_done(h, nelem > 0);
-        if (idx < 1 || idx == en.total + nWide) rep.sample(cs.text(4) + "first bytes of the file: " + vh::jstr(refBytes.substr(0, 120)));
+        if (idx == nWide || idx == en.total + nWide) rep.sample(cs.text(4) + "first bytes of the file: " + vh::jstr(refBytes.substr(0, 120)));
 
         Checker ck{rep, cs, cs.text()};
         rep.journal_note(cs.text(3));
@@ -591,8 +599,8 @@ int main(int argc, char** argv) {
             rep.count("comparisons_size_on_disk");
             const uint64_t want = cs.fmt ? eref::formatted_data_bytes(a.type, a.width, a.count()) : eref::unformatted_data_bytes(a.type, a.width, a.count());
             uint64_t got = 0;
-            try { got = cs.fmt ? EIO::sizeOnDiskFormatted(a.count(), libType(a.type), a.type == eref::C0NN ? a.width : (a.type == eref::DOUB || a.type == eref::CHAR ? 8 : 4))
-                               : EIO::sizeOnDiskBinary(a.count(), libType(a.type), a.type == eref::C0NN ? a.width : (a.type == eref::DOUB || a.type == eref::CHAR ? 8 : 4)); }
+            try { got = cs.fmt ? EclIO::sizeOnDiskFormatted(a.count(), libType(a.type), a.type == eref::C0NN ? a.width : (a.type == eref::DOUB || a.type == eref::CHAR ? 8 : 4))
+                               : EclIO::sizeOnDiskBinary(a.count(), libType(a.type), a.type == eref::C0NN ? a.width : (a.type == eref::DOUB || a.type == eref::CHAR ? 8 : 4)); }
             catch (const std::exception& e) { ck.viol("size-on-disk-threw:" + std::string(cs.fmt ? "fmt" : "unf"), e.what()); continue; }
             if (got != want) ck.viol("size-on-disk:" + std::string(cs.fmt ? "fmt" : "unf") + ":" + eref::type_name(a.type), "sizeOnDisk gives " + std::to_string(got) + " bytes for " + eref::describe(a, 0) + ", the layout needs " + std::to_string(want));
         }
